@@ -34,6 +34,8 @@ class C01System(BuilderSystem):
     def setup(self, st):
         if not self.is_core:
             st.g.set_resolution(1.0)
+        if getattr(self, "hooked", False):
+            st.g.add_hook(passive_hook)        # hooks see every move; this one hands the parameters back unchanged
         if self.bounded:
             # calls that are rejected become part of the history: tracked and emitted position must still agree afterwards
             st.g.set_bounds("axes", (-3, -3, -3), (3, 3, 3))
@@ -175,6 +177,15 @@ class C01System(BuilderSystem):
         return (tuple(st.last_lines), type(st.last_exc).__name__ if st.last_exc else None)
 
 
+def passive_hook(origin, target, params, state):
+    return params
+
+
+def hooked(system):
+    system.hooked = True
+    return system
+
+
 def debug(system):
     system.debug_log = True
     return system
@@ -193,6 +204,7 @@ def systems(tier):
             ("builder-bounded-with-rejections", C01System("builder-bounded-with-rejections", 5, exact, tracers=False, bounded=True), 3, None),
             ("builder-dp12", C01System("builder-dp12", 12, (0, 0.123456789012, -2.000000123456), tracers=True), 2, None),
             ("builder-debug-logging", debug(C01System("builder-debug-logging", 5, exact)), 2, None),
+            ("builder-passive-hook", hooked(C01System("builder-passive-hook", 5, exact)), 2, None),
         ]
     return [
         ("builder-dp0-integers", C01System("builder-dp0-integers", 0, (0, 120, -10), tracers=True), 3, None),
@@ -204,6 +216,7 @@ def systems(tier):
         ("builder-dp1-rounding-notrace", C01System("builder-dp1-rounding-notrace", 1, rough, tracers=False), 4, None),
         ("core-dp5", C01System("core-dp5", 5, exact, cls=GCodeCore), 5, None),
         ("builder-debug-logging", debug(C01System("builder-debug-logging", 5, exact)), 3, None),
+        ("builder-passive-hook", hooked(C01System("builder-passive-hook", 5, exact)), 3, None),
     ]
 
 
